@@ -821,10 +821,12 @@ void body(ctx_t& c)
         return;
     }
     // a tree of depth 1 equals a stump
-    if (id == "stump")
+    if (id == "stump" || (id == "dtree" && depth == 1))
     {
-        const auto tree = fit_once(p, "dtree", criterion, c.cfg.cores, pool, 1);
-        if (tree.fitted)
+        // the other one of the pair, fitted on the same data; predictions are compared on ALL samples of the dataset, also those
+        // outside the fitted subset (their values may sit exactly on the threshold)
+        const auto tree = fit_once(p, id == "stump" ? "dtree" : "stump", criterion, c.cfg.cores, pool, 1);
+        if (tree.fitted == sim.fitted && tree.fitted)
         {
             double w = 0.0;
             if (!close_tensor(tree.predictions, sim.predictions, 1e-12, w))
